@@ -77,6 +77,11 @@ def run_pdu(case, ctx):
         str(p), len(p)
     except Exception as e:
         raise unexpected(e, "pdu-str-or-len-raises")
+    # what both link run loops do with every PDU they receive
+    try:
+        p == nfc.llcp.pdu.Disconnect(0, 0)
+    except Exception as e:
+        raise unexpected(e, "received-pdu-compare-raises")
 
 
 def bulk_pdu_short(tier, seed, i, n, acct):
@@ -655,6 +660,7 @@ def llc_pdu_spec():
 @st.composite
 def llc_case(draw):
     n = draw(st.integers(1, 14))
+    miu = draw(st.sampled_from([128, 248, 248, 1024, 2175]))
     frames = []
     for _ in range(n):
         kind = draw(st.sampled_from(["pdu", "pdu", "pdu", "mut", "raw",
@@ -667,10 +673,10 @@ def llc_case(draw):
             b = ref_llcp.encode(c11.norm(draw(llc_pdu_spec())))
             if kind == "mut":
                 b = c11.mutate(b, draw(c11._mutations()))
-            frames.append(b[:240] or b"\x00\x00")
+            frames.append(b[:miu + 2] or b"\x00\x00")
     return {"frames": frames,
             "end": draw(st.sampled_from(["disc", "silence", "silence"])),
-            "miu": draw(st.sampled_from([128, 248])),
+            "miu": miu,
             "seed": draw(st.integers(0, 255))}
 
 
